@@ -54,14 +54,28 @@ AppM(m, it) == IF m \in Maps THEN M(m, it) ELSE ExtM(m, it)
 AppJ(j, it) == IF j \in Joins THEN J(j, it) ELSE ExtJ(j, it)
 
 JoinOps == {"join", "toseq", "fromseq"}
+\* flat-map with an expression-valued function: [op "joinx"|"toseqx"|"fromseqx", p, e, a, b] maps an item to the iterator
+\* of expression a when predicate p holds for it and to that of b otherwise (built anew on every call), so that the inner
+\* iterators are arbitrary combinator trees and nil / empty inners can stand at any position
+JoinXOps == {"joinx", "toseqx", "fromseqx"}
+FnExpr(x, j, it) == IF x THEN (IF AppP(j.p, it) THEN j.a ELSE j.b) ELSE AppJ(j, it)
+FnName(x, j) == IF x THEN "joinx" ELSE j
 
 (* ------------------------------------------------------------------ P: list semantics *)
-RECURSIVE Sem(_), TakeWhileL(_, _), DropWhileL(_, _), FilterL(_, _), MapL(_, _), FlatL(_, _)
-TakeWhileL(p, s) == IF s = <<>> THEN <<>> ELSE IF AppP(p, Head(s)) THEN <<Head(s)>> \o TakeWhileL(p, Tail(s)) ELSE <<>>
-DropWhileL(p, s) == IF s = <<>> THEN <<>> ELSE IF AppP(p, Head(s)) THEN DropWhileL(p, Tail(s)) ELSE s
-FilterL(p, s) == IF s = <<>> THEN <<>> ELSE (IF AppP(p, Head(s)) THEN <<Head(s)>> ELSE <<>>) \o FilterL(p, Tail(s))
+\* (written without recursion along the list - TLC's evaluation stack does not survive a few hundred nested calls -
+\*  concatenations are folded as a balanced tree)
+RECURSIVE Sem(_), ConcatRange(_, _, _)
+FirstFailing(p, s) == LET bad == {i \in 1..Len(s) : ~AppP(p, s[i])} IN
+                      IF bad = {} THEN Len(s) + 1 ELSE CHOOSE i \in bad : \A k \in bad : i <= k
+TakeWhileL(p, s) == SubSeq(s, 1, FirstFailing(p, s) - 1)
+DropWhileL(p, s) == SubSeq(s, FirstFailing(p, s), Len(s))
+FilterL(p, s) == SelectSeq(s, LAMBDA x : AppP(p, x))
 MapL(m, s) == [i \in 1..Len(s) |-> AppM(m, s[i])]
-FlatL(j, s) == IF s = <<>> THEN <<>> ELSE Sem(AppJ(j, Head(s))) \o FlatL(j, Tail(s))
+ConcatRange(f, lo, hi) == IF lo > hi THEN <<>> ELSE IF lo = hi THEN f[lo]
+                          ELSE LET mid == (lo + hi) \div 2 IN ConcatRange(f, lo, mid) \o ConcatRange(f, mid + 1, hi)
+Concat(f) == ConcatRange(f, 1, Len(f))
+FlatL(j, s) == Concat([i \in 1..Len(s) |-> Sem(AppJ(j, s[i]))])
+FlatXL(e, s) == Concat([i \in 1..Len(s) |-> Sem(IF AppP(e.p, s[i]) THEN e.a ELSE e.b)])
 Sem(e) == CASE e.op = "nil" -> <<>>
             [] e.op = "slice" -> e.xs
             [] e.op = "from" -> <<e.x>>
@@ -72,6 +86,7 @@ Sem(e) == CASE e.op = "nil" -> <<>>
             [] e.op = "map" -> MapL(e.m, Sem(e.e))
             [] e.op = "plus" -> Sem(e.l) \o Sem(e.r)
             [] e.op \in JoinOps -> FlatL(e.j, Sem(e.e))
+            [] e.op \in JoinXOps -> FlatXL(e, Sem(e.e))
 \* ForEach with a callback that fails on its (k+1)-th call (k counted from 0): what is visited, is the error returned
 ForEachL(list, k) == [visited |-> SubSeq(list, 1, IF k + 1 < Len(list) THEN k + 1 ELSE Len(list)), failed |-> k < Len(list)]
 
@@ -79,7 +94,7 @@ ForEachL(list, k) == [visited |-> SubSeq(list, 1, IF k + 1 < Len(list) THEN k + 
 Nil == [t |-> "nil"]
 Call(f, it) == << <<f, it>> >>
 
-RECURSIVE Construct(_), Value(_), Next(_), DropLoop(_, _, _), FilterLoop(_, _, _), JoinLoop(_, _, _),
+RECURSIVE Construct(_), Value(_), Next(_), DropLoop(_, _, _), FilterLoop(_, _, _), JoinLoop(_, _, _, _),
           FilterNext(_, _, _), JoinNext(_, _, _, _)
 
 Value(s) ==
@@ -121,8 +136,8 @@ JoinNext(s, lhs, cur, c) ==
   LET n == Next(lhs) IN
   IF ~n[1] THEN <<FALSE, [s EXCEPT !.lhs = n[2], !.cur = cur], c \o n[3]>>
   ELSE LET v == Value(n[2])
-           k == Construct(AppJ(s.j, v[1]))
-           c2 == c \o n[3] \o v[2] \o Call(s.j, v[1]) \o k[2]
+           k == Construct(FnExpr(s.x, s.j, v[1]))
+           c2 == c \o n[3] \o v[2] \o Call(FnName(s.x, s.j), v[1]) \o k[2]
        IN IF k[1] # Nil THEN <<TRUE, [s EXCEPT !.lhs = n[2], !.cur = k[1]], c2>>
           ELSE JoinNext(s, n[2], Nil, c2)          \* join.Seq = rhs(..) is assigned before it is tested: a nil result stays there
 
@@ -138,12 +153,12 @@ FilterLoop(p, s, c) ==
   IN IF AppP(p, v[1]) THEN <<[t |-> "flt", s |-> s, p |-> p], c1>>
      ELSE LET n == Next(s) IN IF ~n[1] THEN <<Nil, c1 \o n[3]>> ELSE FilterLoop(p, n[2], c1 \o n[3])
 
-JoinLoop(j, lhs, c) ==
+JoinLoop(x, j, lhs, c) ==
   LET v == Value(lhs)
-      k == Construct(AppJ(j, v[1]))
-      c1 == c \o v[2] \o Call(j, v[1]) \o k[2]
-  IN IF k[1] # Nil THEN <<[t |-> "join", cur |-> k[1], lhs |-> lhs, j |-> j], c1>>
-     ELSE LET n == Next(lhs) IN IF ~n[1] THEN <<Nil, c1 \o n[3]>> ELSE JoinLoop(j, n[2], c1 \o n[3])
+      k == Construct(FnExpr(x, j, v[1]))
+      c1 == c \o v[2] \o Call(FnName(x, j), v[1]) \o k[2]
+  IN IF k[1] # Nil THEN <<[t |-> "join", x |-> x, cur |-> k[1], lhs |-> lhs, j |-> j], c1>>
+     ELSE LET n == Next(lhs) IN IF ~n[1] THEN <<Nil, c1 \o n[3]>> ELSE JoinLoop(x, j, n[2], c1 \o n[3])
 
 Construct(e) ==
   CASE e.op = "nil" -> <<Nil, <<>>>>
@@ -164,7 +179,9 @@ Construct(e) ==
              r == Construct(e.r)
              c == l[2] \o r[2]
          IN IF l[1] = Nil THEN <<r[1], c>> ELSE IF r[1] = Nil THEN <<l[1], c>> ELSE <<[t |-> "plus", s |-> l[1], rhs |-> r[1]], c>>
-    [] e.op \in JoinOps -> LET k == Construct(e.e) IN IF k[1] = Nil THEN k ELSE JoinLoop(e.j, k[1], k[2])
+    [] e.op \in JoinOps -> LET k == Construct(e.e) IN IF k[1] = Nil THEN k ELSE JoinLoop(FALSE, e.j, k[1], k[2])
+    [] e.op \in JoinXOps -> LET k == Construct(e.e) IN
+                            IF k[1] = Nil THEN k ELSE JoinLoop(TRUE, [p |-> e.p, a |-> e.a, b |-> e.b], k[1], k[2])
 
 (* the documented loop `for has := s != nil; has; has = s.Next() { s.Value() }` as one value:
    steps[i] = [v: Value(), ok: the following Next(), vc / nc: the user-function calls made by each] *)
@@ -181,13 +198,32 @@ RECURSIVE Dangling(_)
 Dangling(s) == CASE s.t = "nil" -> TRUE
                  [] s.t \in {"slice", "elem"} -> FALSE
                  [] s.t \in {"tw", "flt", "map", "plus"} -> Dangling(s.s)
-                 [] s.t = "join" -> Dangling(s.cur)
+                 [] s.t = "join" -> Dangling(s.cur)          \* (Nil itself: s.t = "nil")
 PostOf(f) == IF Dangling(f) THEN [panic |-> TRUE, v |-> 0] ELSE [panic |-> FALSE, v |-> Value(f)[1]]
 NoPost == [panic |-> FALSE, v |-> 0]
 SamePost(a, b) == a.panic = b.panic /\ (a.panic \/ a.v = b.v)
+\* polling the exhausted iterator once more (an environment move nobody is entitled to: the documented loop stops at
+\* the first false, and no combinator polls an exhausted operand again): "false" | "true" | "panic".  As coded, Next() on
+\* an exhausted join dereferences the nil its last function result left behind; everything else stays false.
+RECURSIVE NextHitsNil(_), FilterHitsNil(_, _), JoinHitsNil(_, _)
+NextHitsNil(s) ==
+  CASE s.t = "nil" -> TRUE
+    [] s.t \in {"slice", "elem"} -> FALSE
+    [] s.t = "tw" -> s.live /\ NextHitsNil(s.s)
+    [] s.t = "flt" -> FilterHitsNil(s, s.s)
+    [] s.t \in {"map", "plus"} -> NextHitsNil(s.s)
+    [] s.t = "join" -> \/ NextHitsNil(s.cur)
+                       \/ (~Next(s.cur)[1] /\ JoinHitsNil(s, s.lhs))
+FilterHitsNil(s, inner) == \/ NextHitsNil(inner)
+                           \/ LET n == Next(inner) IN n[1] /\ ~AppP(s.p, Value(n[2])[1]) /\ FilterHitsNil(s, n[2])
+JoinHitsNil(s, lhs) == \/ NextHitsNil(lhs)
+                       \/ LET n == Next(lhs) IN
+                          n[1] /\ Construct(FnExpr(s.x, s.j, Value(n[2])[1]))[1] = Nil /\ JoinHitsNil(s, n[2])
+RepollOf(f) == IF NextHitsNil(f) THEN "panic" ELSE IF Next(f)[1] THEN "true" ELSE "false"
 Run(e) == LET k == Construct(e) IN
-          IF k[1] = Nil THEN [nil |-> TRUE, cc |-> k[2], steps |-> <<>>, post |-> NoPost]
-          ELSE [nil |-> FALSE, cc |-> k[2], steps |-> DrainFrom(k[1]), post |-> PostOf(FinalOf(k[1]))]
+          IF k[1] = Nil THEN [nil |-> TRUE, cc |-> k[2], steps |-> <<>>, post |-> NoPost, repoll |-> "none"]
+          ELSE LET f == FinalOf(k[1]) IN
+               [nil |-> FALSE, cc |-> k[2], steps |-> DrainFrom(k[1]), post |-> PostOf(f), repoll |-> RepollOf(f)]
 Values(steps) == [i \in 1..Len(steps) |-> steps[i].v]
 
 \* ForEach as coded (the same loop, leaving at the first error): k = index of the failing callback invocation
@@ -250,12 +286,32 @@ ChainKind(tag) == CHOOSE k \in {"s", "p", "m"} : \E n \in 1..4 : tag = ChainTag(
 ChainLeft(tag) == CHOOSE n \in 1..4 : \E k \in {"s", "p", "m"} : tag = ChainTag(k, n)
 ChainBase(shape) == Tag(ChainTag("s", IF shape = "c3" THEN 3 ELSE 4), ChainLeaves)
 ChainWraps(tag, e) == Tag(IF ChainLeft(tag) = 1 THEN "seq" ELSE ChainTag("s", ChainLeft(tag) - 1), ChainSteps(e))
-SeqBase(shape, w) == IF shape \in {"c3", "c4"} THEN ChainBase(shape)
+(* Shape "jx": Join with an expression-valued function.  The outer sequence runs over every slice of 1s and 2s of length
+   <= 3; 1 maps to an inner combinator tree over the non-monotone slice JxNM (a predicate that failed holds again
+   further on: an inner iterator that stopped early has not used up its source), 2 maps to nil (or, for the inner trees
+   of depth <= 1, also to one element) - so nil inners stand before, between and after the others in every pattern.  Inner trees: chains of depth <= 2 over JxNM;
+   the joins with an inner tree of depth <= 1 are also wrapped by one more chain step. *)
+RECURSIVE SeqsUpTo(_, _)
+SeqsUpTo(X, n) == IF n = 0 THEN {<<>>} ELSE LET T == SeqsUpTo(X, n - 1) IN T \cup {Append(t, x) : t \in T, x \in X}
+JxNM == <<0, 3, 0, 1>>
+JxOuter == {ESlice(xs) : xs \in SeqsUpTo({1, 2}, 3)}
+JxInner1 == {ESlice(JxNM)} \cup ChainSteps(ESlice(JxNM))
+JxMake(op, p, outer, a, B) == {[op |-> op, p |-> p, e |-> o, a |-> a, b |-> b] : o \in outer, b \in B}
+JxBase == Tag("jx1", JxInner1)
+JxWraps(tag, e) ==
+  LET one == [op |-> "from", x |-> 2] IN
+  CASE tag = "jx1" -> Tag("jxa", {e}) \cup Tag("jxb", ChainSteps(e))                         \* inner tree of depth <= 1 / depth 2
+    [] tag = "jxa" -> Tag("seq", JxMake("joinx", "lt2", JxOuter, e, {one})) \cup Tag("jxw", JxMake("joinx", "lt2", JxOuter, e, {ENil}))
+    [] tag = "jxb" -> Tag("seq", JxMake("joinx", "lt2", JxOuter, e, {ENil}))
+    [] tag = "jxw" -> Tag("seq", {e} \cup ChainSteps(e))
+
+SeqBase(shape, w) == IF shape \in {"c3", "c4"} THEN ChainBase(shape) ELSE IF shape = "jx" THEN JxBase
                      ELSE Tag("pick", IF shape = "d1" THEN SeqD0(SliceSet(w)) ELSE SeqD1(SliceSet(w)))
 SeqWraps(tag, e, shape, w) ==
   LET D0 == SeqD0(SliceSet(w))
       full == {e} \cup SeqU({e}) \cup Binary({e}, IF shape = "d1" THEN D0 ELSE SeqD1(SliceSet(w)))    \* base D(n) -> all of D(n+1)
   IN CASE tag \in ChainTags -> ChainWraps(tag, e)
+       [] tag \in {"jx1", "jxa", "jxb", "jxw"} -> JxWraps(tag, e)
        [] tag = "pick" /\ shape \in {"d1", "d2"} -> Tag("seq", full)
        [] tag = "pick" /\ shape = "d3" -> Tag("pick2", full)
        [] tag = "pick2" -> Tag("seq", SeqU({e}) \cup Binary({e}, D0) \cup Binary(D0, {e}))
